@@ -78,6 +78,11 @@ def cells(tier, seed):
     # over-determined with independent values per solute (both directions of an inconsistent quantity are reachable)
     out.append(_cell(i, ['NaCl', 'Na2SO4'], 'water', ['concentration', 'quantity'], cu=['M', 'M'], qu=['g', 'g'])); i += 1
     out.append(_cell(i, ['Na2SO4', 'NaCl'], 'container', ['concentration', 'quantity'], cu=['mg/g', 'mg/g'], qu=['mg', 'mg'])); i += 1
+    # totals stated in moles (enzymes count as 0 mol, like everywhere else in the library), also in the quick tier
+    out.append(_cell(i, ['lipase'], 'water', ['concentration', 'total_quantity'], cu='U/mL', tu='mol')); i += 1
+    out.append(_cell(i, ['lipase'], 'water', ['quantity', 'total_quantity'], qu='U', tu='mol')); i += 1
+    out.append(_cell(i, ['NaCl', 'lipase'], 'water', ['concentration', 'total_quantity'], cu=['M', 'U/mL'], tu='mol')); i += 1
+    out.append(_cell(i, ['NaCl'], 'container', ['concentration', 'total_quantity'], cu='M', tu='mol')); i += 1
     # a solvent container that holds a dissolved solid (brine) / an enzyme
     for sol, cu, tu in [(['DMSO'], 'M', 'mL'), (['DMSO'], 'mg/g', 'g'), (['DMSO'], 'mmol/kg', 'g'), (['lipase'], 'U/mL', 'mL')]:
         out.append(_cell(i, sol, 'brine', ['concentration', 'total_quantity'], cu=cu, tu=tu)); i += 1
